@@ -19,6 +19,7 @@ func init() {
 			"the identifier predicates of C20 (which names are labels); PV-API: the keyword table is consulted with the scanned text itself",
 			"PV-ROLE: lexer and parser are configured from the caller's ParseOptions.AllowDots; FE-CLASS: the scanner's identifier-character table; PV-API label regexps are compiled anchored whatever else uses the same text",
 			"PV-PAIR regexp stage: a named group is stored under its own submatch index; PV-ORDER comma lists: after a separating comma no successful return is reachable before another element was parsed",
+			"PV-ROLE the scanner reads Tokenize's own parameter; PV-FRESH parse methods write no parser field but the integer position",
 		},
 		NotDecided: []string{"acceptance of the whole grammar / independence from layout, comments and redundant parentheses beyond the look-ahead rule", "and/or precedence inside label predicates", "numeric literal values, string unquoting (strutil.Unquote), duration/bytes literal values"},
 		Rules: func(r *Run) {
@@ -43,6 +44,8 @@ func init() {
 			ruleScannerIdentRune(r)
 			ruleRegexpGroupNumbering(r)
 			ruleCommaListElement(r)
+			ruleLexerInputVerbatim(r)
+			ruleParserStateOnlyPosition(r)
 		},
 	})
 }
